@@ -112,6 +112,9 @@ type Client struct {
 	// forcefully killed.
 	processKilled bool
 
+	// killLock serialises calls to Kill.
+	killLock sync.Mutex
+
 	unixSocketCfg UnixSocketConfig
 
 	grpcMuxerOnce sync.Once
@@ -497,6 +500,11 @@ func (c *Client) killed() bool {
 //
 // This method can safely be called multiple times.
 func (c *Client) Kill() {
+	// Serialise concurrent calls: a second caller must not force kill a
+	// plugin that the first caller is shutting down gracefully.
+	c.killLock.Lock()
+	defer c.killLock.Unlock()
+
 	// Grab a lock to read some private fields.
 	c.l.Lock()
 	runner := c.runner
